@@ -32,8 +32,8 @@ func init() {
 		},
 		Assumptions: []string{"same binary in both processes (reflect.Type.Name-derived statistics)"},
 		Rules: []Rule{
-			{ID: "C12/O1", Run: c12o1, Min: 2},
-			{ID: "C12/O2", Run: c12o2, Min: 8},
+			{ID: "C12/O1", Run: c12o1, Min: 1},
+			{ID: "C12/O2", Run: c12o2, Min: 1},
 			{ID: "C12/O3", Run: c12o3, Min: 1},
 			{ID: "C12/O4", Run: c12o4, Min: 1},
 			{ID: "C12/O5", Run: c12o5, Min: 1, CrossConfig: true},
